@@ -76,7 +76,8 @@ def gen_cases(tier, seed):
                 if v is not None:
                     kw[f] = v
             if rng.random() < 0.3:
-                kw['birthday'] = rng.choice(['19700101', '20240229', {'$date': [1999, 12, 31]}, '19700101;TEL:666', '1970:01:01', '1970\\'])
+                kw['birthday'] = rng.choice(['19700101', '20240229', {'$date': [1999, 12, 31]}, {'$datetime': [1976, 9, 19, 8, 30, 0]}, {'$datetime': [999, 1, 1, 0, 0, 0]},
+                                             {'$date': [2001, 2, 3]}, '19700101;TEL:666', '1970:01:01', '1970\\'])
         elif h == 'vcard':
             kw = {'name': rng.choice([tt(), 'Doe;John', 'Doe;John\r\nX-EVIL:1']), 'displayname': tt()}
             for f in ('memo', 'nickname', 'pobox', 'street', 'city', 'region', 'zipcode', 'country', 'org', 'source'):
@@ -86,8 +87,15 @@ def gen_cases(tier, seed):
                 v = maybe_multi(rng, tt)
                 if v is not None:
                     kw[f] = v
+            if rng.random() < 0.12:
+                # values that look like what the field is for: a data: URI (base64 in lines), an https URI with delimiters
+                kw['photo_uri'] = rng.choice(['data:image/png;base64,iVBORw0KGgo\r\nAAAANSUhEUg==', 'DATA:image/gif;base64,R0lG\nODlh',
+                                              'data:,x\r\nTEL:+666\r\nEND:VCARD\r\nBEGIN:VCARD', 'https://example.org/a;b,c\r\nd', 'data:text/plain,a;b,c'])
+                kw['url'] = rng.choice([kw.get('url'), 'https://example.org/?q=1;2,3\nX-EVIL:1'])
+                if kw['url'] is None:
+                    kw.pop('url')
             if rng.random() < 0.3:
-                kw['birthday'] = rng.choice(['1970-01-01', '2024-02-29', {'$date': [1999, 12, 31]}, '1970-01-01\n', '1970-01-01\r\nX-EVIL:1', '1970-01-01T10:11:12Z\n',
+                kw['birthday'] = rng.choice(['1970-01-01', '2024-02-29', {'$date': [1999, 12, 31]}, {'$datetime': [1976, 9, 19, 8, 30, 0]}, '1970-01-01\n', '1970-01-01\r\nX-EVIL:1', '1970-01-01T10:11:12Z\n',
                                              # a line break (or other white space) *inside* an otherwise complete date-time
                                              '1976-09-19\n10:11:12', '1976-09-19\r10:11:12', '1976-09-19\n10:11:12Z', '1976-09-19 10:11:12',
                                              '1976-09-19\x0b10:11:12', '1976-09-19\u202810:11:12', '1976-09-19T10:11:12\n+02:00',
@@ -249,6 +257,8 @@ def real_kw(kw):
             form = v.get('form')
             out[k] = iter(vals) if form == 'iter' else ((x for x in vals) if form == 'generator' else
                                                         (map(str, vals) if form == 'map' else tuple(vals)))
+        elif isinstance(v, dict) and '$datetime' in v:
+            out[k] = datetime.datetime(*v['$datetime'])
         elif isinstance(v, dict) and '$date' in v:
             out[k] = date_of(v)
         else:
@@ -278,6 +288,8 @@ def parse_card(payload, prefix):
 def date_of(v):
     if isinstance(v, dict) and '$date' in v:
         return datetime.date(*v['$date'])
+    if isinstance(v, dict) and '$datetime' in v:
+        return datetime.datetime(*v['$datetime'])     # a datetime is a date: only its day is written
     return v
 
 
